@@ -13,12 +13,17 @@ from .worker import load_prop
 
 def main(argv) -> int:
     prop, path = argv[0], argv[1]
-    mod = load_prop(prop)
-    if hasattr(mod, "warm"):
-        mod.warm()
     with open(path) as fp:
         sc = json.load(fp)
     expect = sc.pop("expect", {})
+    layer = (expect.get("info") or {}).get("layer")
+    if layer in ("omp", "workqueue"):  # C19 mode=compiled: same threading layer as the recorded run
+        import os
+
+        os.environ["NUMBA_THREADING_LAYER"] = layer
+    mod = load_prop(prop)
+    if hasattr(mod, "warm"):
+        mod.warm()
     out = run_scenario(mod, sc)
     cleanup_scratch()
     print(f"VERIF_SEED={sc.get('seed')} run={sc.get('run')} replay={path}")
